@@ -106,7 +106,9 @@ pub fn run_history(spec_flags: &Flags, prog: &Arc<Program>, hist: &[Op], stats: 
     };
     // external state changed without a new revision: the reference (which reads the current
     // external state) and a fresh database are not comparable until the next revision starts
-    let mut ext_dirty = false;
+    // (programs with impure user code - `Post::SpecPrev` - are not comparable with a fresh database)
+    let mut ext_dirty = prog.nodes.iter().any(|n| format!("{:?}", n.ex).contains("SpecPrev"));
+    let impure = ext_dirty;
     for (i, op) in hist.iter().chain(sweep.iter()).enumerate() {
         let is_sweep = i >= n_hist;
         let pre_world = if spec_flags.needs_pre_world { Some(world.clone()) } else { None };
@@ -118,7 +120,7 @@ pub fn run_history(spec_flags: &Flags, prog: &Arc<Program>, hist: &[Op], stats: 
         let mut exp = exp;
         match op {
             Op::SetExt(..) => ext_dirty = true,
-            Op::Set(..) | Op::SetD(..) | Op::Syn(_) | Op::SetExtSyn(..) | Op::Swap(_) => ext_dirty = false,
+            Op::Set(..) | Op::SetD(..) | Op::Syn(_) | Op::SetExtSyn(..) | Op::Swap(_) => ext_dirty = impure,
             _ => {}
         }
         if ext_dirty && is_request(op) {
